@@ -9,6 +9,7 @@ import (
 	"fmt"
 	"hash/fnv"
 	"os"
+	"runtime"
 	"runtime/debug"
 	"sort"
 	"strings"
@@ -23,6 +24,22 @@ type Violation struct {
 	Class  string `json:"class"`
 	Detail string `json:"detail"`
 	Case   any    `json:"case"`
+	// Procs > 0: the case ran (and replays) with the process limited to that many processors
+	Procs int `json:"procs,omitempty"`
+}
+
+// WithProcs runs f with the process limited to n processors (runtime.GOMAXPROCS); violations raised
+// inside carry n, and the replayer restores it. The processor count is part of the environment a
+// library call runs in: code that splits its work by it behaves differently for each value.
+func (c *Ctx) WithProcs(n int, f func()) {
+	old := runtime.GOMAXPROCS(n)
+	prev := c.procs
+	c.procs = n
+	defer func() {
+		c.procs = prev
+		runtime.GOMAXPROCS(old)
+	}()
+	f()
 }
 
 func (v Violation) Key() string { return v.Site + " | " + v.Clause + " | " + v.Class }
@@ -71,6 +88,7 @@ type Ctx struct {
 	Deadline time.Time
 	Replay   json.RawMessage
 	Args     map[string]string
+	procs    int // processors the current case is limited to (0: the job's default)
 
 	R        *Result
 	hashes   map[uint64]struct{}
@@ -231,6 +249,7 @@ func (c *Ctx) Violate(v Violation) {
 	g.Count++
 	if len(g.First) < 3 {
 		v.Case = JSONSafe(v.Case)
+		v.Procs = c.procs
 		if len(v.Detail) > 2000 {
 			v.Detail = v.Detail[:2000] + "…"
 		}
